@@ -101,6 +101,45 @@ def apply_edit(db, e):
         db.tables[e['t'] - 1].delete_index(e['x'] - 1)
     elif op == 'add_enum_item':
         db.enums[e['e'] - 1].add_item(EnumItem(dec(e['item']['name'])))
+    # additions and removals of top-level elements, through the public container methods
+    elif op == 'add_table':
+        from pydbml.classes import Table
+        t = e['table']
+        tab = Table(dec(t['name']), schema=dec(t['schema']), note=dec(t['note']) or None)
+        for col in t['cols']:
+            tab.add_column(Column(dec(col['name']), dec(col['type']['v']), pk=col['pk']))
+        db.add(tab)
+    elif op == 'delete_table':
+        db.delete(db.tables[e['t'] - 1])
+    elif op == 'add_ref':
+        from pydbml.classes import Reference
+        r = e['ref']
+        db.add(Reference(r['type'], [db.tables[r['t1'] - 1].columns[i - 1] for i in r['c1']],
+                         [db.tables[r['t2'] - 1].columns[i - 1] for i in r['c2']], name=dec(r['name']) or None,
+                         on_update=r['onupdate'] or None, on_delete=r['ondelete'] or None, inline=r['inline']))
+    elif op == 'delete_ref':
+        db.delete(db.refs[e['r'] - 1])
+    elif op == 'add_enum':
+        from pydbml.classes import Enum
+        x = e['enum']
+        db.add(Enum(dec(x['name']), [EnumItem(dec(i['name'])) for i in x['items']], schema=dec(x['schema'])))
+    elif op == 'delete_enum':
+        db.delete(db.enums[e['e'] - 1])
+    elif op == 'add_group':
+        from pydbml.classes import TableGroup
+        g = e['group']
+        db.add(TableGroup(dec(g['name']), [db.tables[i - 1] for i in g['items']], note=Note(dec(g['note'])) if g['note'] else None))
+    elif op == 'delete_group':
+        db.delete(db.table_groups[e['g'] - 1])
+    elif op == 'add_sticky':
+        from pydbml._classes.sticky_note import StickyNote
+        db.add(StickyNote(dec(e['note']['name']), dec(e['note']['text'])))
+    elif op == 'set_project':
+        from pydbml.classes import Project
+        p = e['project']
+        db.add(Project(dec(p['name']), note=dec(p['note']) or None))
+    elif op == 'delete_project':
+        db.delete_project()
     else:
         raise RuntimeError('harness: unknown edit %r' % op)
 
@@ -183,7 +222,7 @@ def run_items(items, rep, label):
 def main(argv: List[str]) -> int:
     rep = core.Report('C10', 'Edits.tla: edit histories chosen by TLC (ChooseEdit) over generated databases, applied to the real objects; '
                              'projection after every edit validated against ApplyEdit, final renderings compared with a freshly built database')
-    rep.rule = ('case = (model seed, route, pre-rendered or not); 18 edit kinds; history length 1..MaxEdits; non-trivial = the history '
+    rep.rule = ('case = (model seed, route, pre-rendered or not); 31 edit kinds (attribute edits, member additions/removals, additions/removals of top-level elements); history length 1..MaxEdits; non-trivial = the history '
                 'has an edit that is not a skip')
     rep.assumptions = ['the fresh database is built by pv/builder.py from the final model computed by the specification',
                        'the inline flag a reference remembers while it is many-to-many is modelled (Edits!Stored / Eff): it is observable as soon as the kind is edited']
@@ -226,7 +265,8 @@ def main(argv: List[str]) -> int:
     rep.notes['edits_applied'] = dict(sorted(ops.items()))
     want = ['table_name', 'table_schema', 'table_alias', 'table_note', 'col_name', 'col_type:str', 'col_type:enum', 'col_flag', 'col_default',
             'col_note', 'enum_name', 'ref_type:plain', 'ref_type:to_m2m', 'ref_type:from_m2m', 'ref_inline', 'ref_name', 'ref_actions',
-            'add_column', 'add_index', 'remove_index', 'dup_index', 'add_enum_item']
+            'add_column', 'add_index', 'remove_index', 'dup_index', 'add_enum_item', 'add_table', 'delete_table', 'add_ref', 'delete_ref',
+            'add_enum', 'delete_enum', 'add_group', 'delete_group', 'add_sticky', 'set_project', 'delete_project']
     never = [k for k in want if not ops.get(k)]
     if never:
         raise core.Machinery('C10: edits never applied in any history: %s' % never)
